@@ -1182,9 +1182,8 @@ func (fr *Frame) execLoopCut(l *Loop, in []*Edge) map[*ssa.BasicBlock][]*Edge {
 
 	// 2a. peel (ghost harnesses only): the first evaluation of the header runs on the entry state. Where it leaves
 	// the loop at once, execution continues with the entry state itself (zero iterations change nothing);
-	// the arbitrary-iteration state below then stands for loops that are entered at least once. Obligations of
-	// the header are not recorded here: the entry state is an instance of the arbitrary-iteration state, for
-	// which they are recorded, and the invariants are proved on entry.
+	// the arbitrary-iteration state below then stands for loops that are entered at least once. The header's own
+	// obligations are recorded for this first evaluation too (the arbitrary-iteration run only covers entered loops).
 	var peeled []outEdge
 	if isHarnessRoot(fr) && !vc.logStores {
 		if _, isIf := l.head.Instrs[len(l.head.Instrs)-1].(*ssa.If); isIf {
@@ -1193,9 +1192,7 @@ func (fr *Frame) execLoopCut(l *Loop, in []*Edge) map[*ssa.BasicBlock][]*Edge {
 			for k, v := range snapVals {
 				fr.vals[k] = v
 			}
-			vc.noOblige++
 			outs := fr.execBlock(l.head, in, false)
-			vc.noOblige--
 			entered := []string{}
 			for _, oe := range outs {
 				if l.blocks[oe.to] {
